@@ -133,6 +133,7 @@ func c16Run(t *tr.Writer, id int, c c16Case) {
 	case "broadcast":
 		client.Use(core.InvokeHandler(cluster.Broadcast), core.InvokeHandler(invScripted))
 	}
+	Watch(id, tr.Rec{"mode": c.Mode}, c)
 	t.Reset(id, tr.Rec{"mode": c.Mode, "servers": names, "retry": c.Retry, "idem": c.Idem, "input": c})
 	for ci, call := range c.Calls {
 		mu.Lock()
